@@ -218,6 +218,7 @@ Section GnodeInd.
   Hypothesis HP : forall uid key, P (GPass uid key).
   Hypothesis HS : forall uid key inf stages, Forall (Forall P) stages -> P (GSub uid key inf stages).
   Hypothesis HT : forall uid key inf calls, P (GTools uid key inf calls).
+  Hypothesis HStop : P GStop.
 
   Fixpoint gnode_ind' (n : gnode) : P n :=
     match n with
@@ -238,6 +239,7 @@ Section GnodeInd.
                      (fs l')
                end) stages)
     | GTools uid key inf calls => HT uid key inf calls
+    | GStop => HStop
     end.
 End GnodeInd.
 
@@ -316,12 +318,13 @@ Fixpoint node_fails (opts : list copt) (n : gnode) {struct n} : bool :=
       let sopts := sub_opts key opts in
       negb (graph_ok stages sopts) || existsb (existsb (node_fails sopts)) stages
   | GTools _ _ _ calls => existsb call_fails calls
+  | GStop => true
   end.
 
 Lemma node_ops_fails is_stream n : forall parent opts,
   snd (node_ops is_stream parent opts n) = node_fails opts n.
 Proof.
-  induction n as [uid key inf natives fails|uid key|uid key inf stages IH|uid key inf calls] using gnode_ind'; intros parent opts; simpl; auto.
+  induction n as [uid key inf natives fails|uid key|uid key inf stages IH|uid key inf calls|] using gnode_ind'; intros parent opts; simpl; auto.
   unfold graph_body. destruct (graph_ok stages (sub_opts key opts)); simpl; auto.
   rewrite stages_body_exec. simpl.
   apply rs_failed_map. intros st m Hs Hm. apply (FF_in _ _ _ _ IH Hs Hm).
@@ -330,7 +333,7 @@ Qed.
 Lemma node_prog_fails is_stream n : forall parent opts,
   snd (node_prog is_stream parent opts n) = node_fails opts n.
 Proof.
-  induction n as [uid key inf natives fails|uid key|uid key inf stages IH|uid key inf calls] using gnode_ind'; intros parent opts; simpl; auto.
+  induction n as [uid key inf natives fails|uid key|uid key inf stages IH|uid key inf calls|] using gnode_ind'; intros parent opts; simpl; auto.
   unfold graph_body_prog. destruct (graph_ok stages (sub_opts key opts)); simpl; auto.
   apply rs_failed_map. intros st m Hs Hm. apply (FF_in _ _ _ _ IH Hs Hm).
 Qed.
@@ -338,7 +341,7 @@ Qed.
 Lemma node_table_fails is_stream n : forall inh opts,
   snd (node_table is_stream inh opts n) = node_fails opts n.
 Proof.
-  induction n as [uid key inf natives fails|uid key|uid key inf stages IH|uid key inf calls] using gnode_ind'; intros inh opts; simpl; auto.
+  induction n as [uid key inf natives fails|uid key|uid key inf stages IH|uid key inf calls|] using gnode_ind'; intros inh opts; simpl; auto.
   unfold body_table. destruct (graph_ok stages (sub_opts key opts)); simpl; auto.
   apply rs_failed_map. intros st m Hs Hm. apply (FF_in _ _ _ _ IH Hs Hm).
 Qed.
@@ -377,7 +380,7 @@ Qed.
 Lemma flatten_node_prog is_stream n : forall parent opts,
   flatten (fst (node_prog is_stream parent opts n)) = fst (node_ops is_stream parent opts n).
 Proof.
-  induction n as [uid key inf natives fails|uid key|uid key inf stages IH|uid key inf calls] using gnode_ind'; intros parent opts.
+  induction n as [uid key inf natives fails|uid key|uid key inf stages IH|uid key inf calls|] using gnode_ind'; intros parent opts.
   - simpl. reflexivity.
   - reflexivity.
   - cbn [node_prog node_ops fst flatten]. cbn [app]. f_equal.
@@ -388,6 +391,7 @@ Proof.
   - cbn [node_prog node_ops fst flatten]. cbn [app]. f_equal. f_equal. f_equal.
     rewrite flatten_par_list, map_map, flat_map_concat_map. f_equal.
     apply map_ext. intros c. apply flatten_atoms.
+  - reflexivity.
 Qed.
 
 (* the left-to-right schedule of the program of a graph run is the canonical operation list
@@ -463,7 +467,7 @@ Qed.
 Lemma node_ops_units is_stream n : forall parent opts o,
   In o (fst (node_ops is_stream parent opts n)) -> In (op_unit o) (uids n).
 Proof.
-  induction n as [uid key inf natives fails|uid key|uid key inf stages IH|uid key inf calls] using gnode_ind'; intros parent opts o.
+  induction n as [uid key inf natives fails|uid key|uid key inf stages IH|uid key inf calls|] using gnode_ind'; intros parent opts o.
   - simpl. intros [<-|[<-|[<-|[]]]]; simpl; auto.
   - simpl. intros [<-|[]]; simpl; auto.
   - cbn [node_ops fst uids]. intros [<-|H]; [left; reflexivity|].
@@ -476,6 +480,7 @@ Proof.
     apply in_map_iff. exists c. split; auto.
     destruct c as [[[cu cinf] natives] fails]. simpl in Ho.
     destruct Ho as [<-|[<-|[<-|[]]]]; reflexivity.
+  - simpl. intros [].
 Qed.
 
 Lemma node_prog_units is_stream n parent opts o :
@@ -813,7 +818,7 @@ Qed.
 Lemma node_table_units is_stream n : forall inh opts e,
   In e (fst (node_table is_stream inh opts n)) -> In (ue_unit e) (uids n).
 Proof.
-  induction n as [uid key inf natives fails|uid key|uid key inf stages IH|uid key inf calls] using gnode_ind'; intros inh opts e.
+  induction n as [uid key inf natives fails|uid key|uid key inf stages IH|uid key inf calls|] using gnode_ind'; intros inh opts e.
   - simpl. intros [<-|[]]. simpl. auto.
   - simpl. intros [<-|[]]. simpl. auto.
   - cbn [node_table fst uids]. intros [<-|H]; [left; reflexivity|]. right.
@@ -823,6 +828,7 @@ Proof.
   - cbn [node_table fst uids]. intros [<-|H]; [left; reflexivity|]. right.
     apply in_map_iff in H. destruct H as (c & <- & Hc).
     apply in_map_iff. exists c. split; auto. destruct c as [[[cu cinf] natives] fails]. reflexivity.
+  - simpl. intros [].
 Qed.
 
 Section Engine2.
@@ -1041,7 +1047,7 @@ Section Engine2.
 
   Theorem node_sound n : node_sound_stmt w is_stream n.
   Proof.
-    induction n as [uid key inf natives fails|uid key|uid key inf stages IH|uid key inf calls] using gnode_ind';
+    induction n as [uid key inf natives fails|uid key|uid key inf stages IH|uid key inf calls|] using gnode_ind';
       intros parent opts ss T c_p Hp NR Hfresh HT ND Hpar e He.
     - (* a lambda node *)
       cbn [node_table fst] in He. destruct He as [<-|[]]. cbn [ue_unit].
@@ -1103,6 +1109,8 @@ Section Engine2.
         unfold stages_uids. eapply stages_table_units; eauto.
         intros st m e0 Hs Hm He0. eapply node_table_units; eauto.
     - exact (tools_sound uid key inf calls parent opts ss T c_p Hp NR Hfresh HT ND Hpar e He).
+    - (* a configured interrupt point: no unit *)
+      cbn [node_table fst] in He. contradiction.
   Qed.
 End Engine2.
 
@@ -1213,7 +1221,7 @@ Lemma node_ons_in_table is_stream n : forall parent opts inh u tm,
   In (OOn u tm) (fst (node_ops is_stream parent opts n)) ->
   exists e, In e (fst (node_table is_stream inh opts n)) /\ ue_unit e = u /\ In tm (ue_timings e).
 Proof.
-  induction n as [uid key inf natives fails|uid key|uid key inf stages IH|uid key inf calls] using gnode_ind'; intros parent opts inh u tm.
+  induction n as [uid key inf natives fails|uid key|uid key inf stages IH|uid key inf calls|] using gnode_ind'; intros parent opts inh u tm.
   - cbn [node_ops fst]. intros [H|[H|[H|[]]]]; try discriminate; injection H as <- <-;
       eexists; (split; [left; reflexivity|]); cbn [ue_unit ue_timings]; (split; [reflexivity|]); simpl; auto.
   - cbn [node_ops fst]. intros [H|[]]. discriminate.
@@ -1233,6 +1241,7 @@ Proof.
         destruct c as [[[cu cinf] natives] fails]. cbn [call_ops] in Ho. cbn [call_uexp ue_unit ue_timings].
         destruct Ho as [Ho|[Ho|[Ho|[]]]]; try discriminate; injection Ho as <- <-; simpl; auto.
       * injection H as <- <-. eexists. split; [left; reflexivity|]. cbn [ue_unit ue_timings]. simpl; auto.
+  - cbn [node_ops fst]. intros [].
 Qed.
 
 Lemma graph_ons_in_table is_stream g ginf opts stages u tm :
@@ -1352,7 +1361,7 @@ Lemma node_table_timings is_stream n : forall inh opts e,
   In e (fst (node_table is_stream inh opts n)) ->
   ue_timings e = [] \/ exists s f, ue_timings e = [s; f] /\ is_start s = true /\ is_start f = false.
 Proof.
-  induction n as [uid key inf natives fails|uid key|uid key inf stages IH|uid key inf calls] using gnode_ind'; intros inh opts e.
+  induction n as [uid key inf natives fails|uid key|uid key inf stages IH|uid key inf calls|] using gnode_ind'; intros inh opts e.
   - simpl. intros [<-|[]]. right. cbn [ue_timings]. do 2 eexists. split; [reflexivity|].
     split; [apply start_timing_is_start|]. destruct fails; [reflexivity | apply end_timing_is_end].
   - simpl. intros [<-|[]]. left. reflexivity.
@@ -1367,6 +1376,7 @@ Proof.
     + apply in_map_iff in H. destruct H as (c & <- & Hc). destruct c as [[[cu cinf] natives] fails].
       right. cbn [call_uexp ue_timings]. do 2 eexists. split; [reflexivity|].
       split; [apply start_timing_is_start|]. destruct fails; [reflexivity | apply end_timing_is_end].
+  - simpl. intros [].
 Qed.
 
 Lemma graph_table_timings is_stream g ginf opts stages e :
@@ -1479,7 +1489,7 @@ Qed.
 Lemma node_table_p_fails is_stream n : forall inh opts path,
   snd (node_table_p is_stream inh opts path n) = node_fails opts n.
 Proof.
-  induction n as [uid key inf natives fails|uid key|uid key inf stages IH|uid key inf calls] using gnode_ind'; intros inh opts path; simpl; auto.
+  induction n as [uid key inf natives fails|uid key|uid key inf stages IH|uid key inf calls|] using gnode_ind'; intros inh opts path; simpl; auto.
   unfold body_table. destruct (graph_ok stages (sub_opts key opts)); simpl; auto.
   apply rs_failed_map. intros st m Hs Hm. apply (FF_in _ _ _ _ IH Hs Hm).
 Qed.
@@ -1504,7 +1514,7 @@ Qed.
 Lemma node_table_p_fst is_stream n : forall inh opts path,
   map fst (fst (node_table_p is_stream inh opts path n)) = fst (node_table is_stream inh opts n).
 Proof.
-  induction n as [uid key inf natives fails|uid key|uid key inf stages IH|uid key inf calls] using gnode_ind'; intros inh opts path.
+  induction n as [uid key inf natives fails|uid key|uid key inf stages IH|uid key inf calls|] using gnode_ind'; intros inh opts path.
   - reflexivity.
   - reflexivity.
   - cbn [node_table_p node_table fst map].
@@ -1517,6 +1527,7 @@ Proof.
     + intros st m Hs Hm. apply (FF_in _ _ _ _ IH Hs Hm).
     + rewrite E1, E2. reflexivity.
   - cbn [node_table_p node_table fst map]. f_equal. rewrite map_map. reflexivity.
+  - reflexivity.
 Qed.
 
 Theorem graph_table_p_fst is_stream g ginf opts stages :
@@ -1607,7 +1618,7 @@ Lemma node_table_p_lists is_stream n : forall inh opts path e pe,
     forall x, In x (ue_list e) <->
       In x inh \/ exists hs p, In x hs /\ p <> [] /\ is_prefix p q /\ lvl_has opts p hs.
 Proof.
-  induction n as [uid key inf natives fails|uid key|uid key inf stages IH|uid key inf calls] using gnode_ind'; intros inh opts path e pe.
+  induction n as [uid key inf natives fails|uid key|uid key inf stages IH|uid key inf calls|] using gnode_ind'; intros inh opts path e pe.
   - simpl. intros [H|[]]. injection H as <- <-. exists [key]. split; auto. split; [discriminate|].
     intros x. cbn [ue_list]. rewrite in_app_iff, in_designated. split.
     + intros [H|(hs & Hx & Hl)]; auto. right. exists hs, [key]. repeat split; auto; [discriminate | exists []; auto].
@@ -1653,6 +1664,7 @@ Proof.
     + intros [H0|(hs & p & Hx & Hne & [r Hr] & Hlv)]; auto. right. exists hs. split; auto.
       destruct p as [|k p']; [contradiction|]. simpl in Hr. injection Hr as -> Hr.
       symmetry in Hr. apply app_eq_nil in Hr. destruct Hr as [-> _]. exact Hlv.
+  - cbn [node_table_p fst]. intros [].
 Qed.
 
 (* DESIGNATED ONLY THERE, in terms of the call options and node paths: the handler list of a
@@ -1903,7 +1915,7 @@ Section EngineOk.
 
   Theorem node_ok n : node_ok_stmt n.
   Proof.
-    induction n as [uid key inf natives fails|uid key|uid key inf stages IH|uid key inf calls] using gnode_ind';
+    induction n as [uid key inf natives fails|uid key|uid key inf stages IH|uid key inf calls|] using gnode_ind';
       intros parent opts ss T c_p Hp HT ND.
     - cbn [node_prog fst uids] in *. apply traces_atoms in HT.
       apply (unit_ok w uid (OAppend (Some parent) uid inf (designated key opts))
@@ -1994,6 +2006,8 @@ Section EngineOk.
                  ss1 T2 uid cu0) with (T1 := A) (T2 := B); auto.
         * right. eauto.
         * apply touches_In. apply (call_ops_units is_stream) in Ho. rewrite Ho. left. reflexivity.
+    - (* a configured interrupt point: no operation *)
+      cbn [node_prog fst uids] in *. apply ok_on_none. inversion HT; auto.
   Qed.
 End EngineOk.
 
